@@ -439,6 +439,44 @@ def _check_slide(ctx, cfg, requests, reqs, pending, exhaustive=False):
         'requests': [list(q) for q in requests if modelable(q)]}))
     pending.append(('multi', [{'slide': cfg, 'request': list(q)} for q in requests if modelable(q)],
                     [im_ for q, im_ in zip(requests, impls) if modelable(q)], 'L0', 'Image.get_total_pixel_matrix'))
+    # ---- the caller EDITS the arrays it is handed: stored dtype, no value transform (nothing forces a copy), regions inside a single
+    #      tile / aligned tiles / unaligned regions / the whole matrix; after every read the returned array is overwritten in place (when
+    #      writeable) and every later read must still equal the stored total pixel matrix (decoded frames cached or not)
+    if not exhaustive and cfg['samples'] == 1:
+        er = ctx.rng('slideedit', cfg['idx'])
+        raw_kw = dict(dtype={8: np.uint8, 16: np.uint16}[cfg['bits']], apply_modality_transform=False, apply_real_world_transform=False,
+                      apply_voi_transform=False, apply_presentation_lut=False)
+        nth_, ntw_ = -(-R // th), -(-C // tw)
+        regs = []
+        for _ in range(3):
+            i, j = er.randrange(nth_), er.randrange(ntw_)
+            a, b = i * th, min(R, (i + 1) * th)
+            c, d = j * tw, min(C, (j + 1) * tw)
+            regs.append((a, b, c, d))                                   # one whole tile
+            a2 = er.randrange(a, b); c2 = er.randrange(c, d)
+            regs.append((a2, er.randrange(a2 + 1, b + 1), c2, er.randrange(c2 + 1, d + 1)))   # inside that tile
+        a, b = sorted(er.sample(range(R + 1), 2)); c, d = sorted(er.sample(range(C + 1), 2))
+        regs += [(a, b, c, d), (0, R, 0, C)]
+        er.shuffle(regs)
+        regs.append((0, R, 0, C))
+        for q, (a, b, c, d) in enumerate(regs):
+            if _touches_omitted(cfg, a, b, c, d):
+                continue
+            st, val = _fetch(im.get_total_pixel_matrix, row_start=a, row_end=b, column_start=c, column_end=d, as_indices=True, **raw_kw)
+            single = (a // th == (b - 1) // th) and (c // tw == (d - 1) // tw)
+            ctx.case(kind='slide', request_class='edited-result:' + ('single-tile' if single else 'several-tiles'),
+                     outcome='ok' if st == 'ok' else val.split(':')[0], pixel_array_cached=cached is not None)
+            case = {'slide': cfg, 'edited_results': [list(x) for x in regs[:q + 1]]}
+            if st != 'ok':
+                ctx.fail(case, {'what': 'valid region refused (stored dtype, no transform)', 'error': val}, site='Image.get_total_pixel_matrix')
+                continue
+            got = np.asarray(val)
+            if got.shape != want[a:b, c:d].shape or not np.array_equal(got.astype(np.int64), want[a:b, c:d].astype(np.int64)):
+                ctx.fail(case, {'what': 'a read after the caller edited an array returned earlier differs from the stored total pixel matrix',
+                                'region': [a, b, c, d]}, site='Image.get_total_pixel_matrix')
+                break
+            if isinstance(val, np.ndarray) and val.flags.writeable:
+                val[...] = 0 if q % 2 else 1          # the caller's own in-place processing
     # ---- the other public accessor of a region: Image.get_volume (tiled branch: the request is normalised to 0-based indices and
     #      handed to get_total_pixel_matrix as indices).  A few requests per image; empty regions are left to the matrix read.
     gv = getattr(im, 'get_volume', None)
@@ -799,7 +837,8 @@ def _seg_history(ctx, cfg, reader, E, segs, R, C, base_hist, reqs=None, pending=
                          {'what': 'request outside the matrix was not refused'}, site='Segmentation.get_total_pixel_matrix')
             if st == 'err':
                 after_refusal = kind
-            if use_model:
+            # repeated segment numbers are refused before any query is made (/repo 4662006): such a call does not reach the state machine
+            if use_model and not kind.startswith('duplicate-segment'):
                 sn = kw.get('segment_numbers', segs)
                 msteps.append({'data': [] if lm else _chan_data(sn, kw.get('combine_segments', False), kw.get('relabel', False)),
                                'nch': 1 if lm else len(sn), 'request': [[kw.get('row_start'), None, None, None, False]],
